@@ -267,6 +267,9 @@ func ParseRealtime(content []byte, opts *ParseRealtimeOptions) (*Realtime, error
 	if localOpts.Extension == nil {
 		localOpts.Extension = extensions.NoExtension()
 	}
+	if feedScoped, ok := localOpts.Extension.(extensions.FeedScoped); ok {
+		localOpts.Extension = feedScoped.NewFeed()
+	}
 	opts = &localOpts
 	feedMessage := &gtfsrt.FeedMessage{}
 	if err := proto.Unmarshal(content, feedMessage); err != nil {
